@@ -17,6 +17,8 @@ pub mod c14;
 pub mod c15;
 pub mod c16;
 pub mod c17;
+pub mod c18;
+pub mod c19;
 
 pub fn dispatch(prop: &str, cfg: &Cfg) -> Option<(Log, Meta)> {
   Some(match prop {
@@ -35,6 +37,8 @@ pub fn dispatch(prop: &str, cfg: &Cfg) -> Option<(Log, Meta)> {
     "C15" => c15::run(cfg),
     "C16" => c16::run(cfg),
     "C17" => c17::run(cfg),
+    "C18" => c18::run(cfg),
+    "C19" => c19::run(cfg),
     _ => return None,
   })
 }
